@@ -50,6 +50,18 @@ SNIPPETS = [
     ("exec", "def f(x):\n    return 'a' if x else 'b'\n"),
     ("exec", "f = lambda: 'text'\n"),
     ("exec", "def f(a=1,\n" + "\n" * 126 + "  b=2): pass\n"),
+    # rare shapes (each one is the trigger of a defect found or of a seeded change)
+    ("exec", "def f():\n    ''\n    return 'x'\nclass K:\n    ''\n    def m(self):\n        ''\n"),
+    ("exec", "def outer(y):\n    def f(x):\n        if 0:\n            lambda: x\n        return y\n    return f\n"),
+    ("exec", "def f(x):\n    while x:\n        x -= 1\n        if x == 3:\n            continue\n    return x\n"),
+    ("exec", "def f(a):\n    for i in a:\n        try:\n            if i: return i\n            if i == 2: break\n            continue\n        finally:\n            a = 1\n"),
+    ("exec", "def f(a, b, /, c):\n    x = 1\n    return x + c\n"),
+    ("exec", "def f(xs):\n    return xs[-1], xs[-2], -1.0, -2.0, '/', b'/', 1, True, 1.0, 0.0, -0.0\n"),
+    ("exec", "def f(a):\n" + "".join("    a = a + 1\n" for _ in range(90)) + "    while True:\n        a += 1\n"),
+    ("exec", "f = [lambda: 0, lambda: 0]; g = lambda: (lambda: (1)); h = lambda a: (lambda: (\n 1))\n"),
+    ("exec", "def f(a, *args, key=None, **kw):\n    return a, args, key, kw\n"),
+    ("exec", "x = '\\udc80'; y = '\\ud800\\udc00'; z = '\\ud800\\U0001fad0'\ndef f():\n    '\\udc80 doc'\n"),
+    ("exec", "def f(x):\n" + "".join("    x = x * 2\n" for _ in range(60)) + "    for i in x:\n        if i:\n            break\n    else:\n        return 0\n    return i\n"),
 ]
 
 
